@@ -140,6 +140,21 @@ def run(ck, facts, tier):
         except Unsupported as e:
             ck.fail(r2, "create_fx_array[%s]" % order, "rule could not be established (%s)" % e, where)
 
+    # quotes that are already dual numbers keep their own variables / gradient under the lifting (the statement's parenthesis): set_order_clone cases
+    from rules import c18
+    for k in ("Dual", "Dual2"):
+        for o, tgt in (("One", "Dual"), ("Two", "Dual2")):
+            key = "set_order_clone(%s->%s)" % (k, o)
+            try:
+                v = cel.Ev(facts).apply_fn("dual::dual_ops::convert::set_order_clone", [c18.number(k, "u"), Sym("ctor", o), Sym("param", "vars")], 0)
+                u = c18.payload(k, "u")
+                ok = isinstance(v, Sym) and v.tag[:2] == ("ctor", tgt) and isinstance(v.tag[2], Rec) and v.tag[2].fields["real"] == u.fields["real"] and \
+                    v.tag[2].fields["dual"] == u.fields["dual"] and vkey(v.tag[2].fields["vars"]) == vkey(u.fields["vars"])
+            except Unsupported as e:
+                ok, v = False, e
+            ck.check(r2, key, ok, "a quote that is already a dual number does not keep its own variables and gradient when lifted to order %s: %s" % (o, cel.vfmt(v)[:300] if not isinstance(v, Exception) else v),
+                     "rust/dual/dual_ops/convert.rs", sample="value, gradient and variable names kept")
+
     # ---------------- R10.3 atomic update (MIR)
     r3 = ck.rule("R10.3", "atomic refusal: in FXRates::update and FXRates::set_ad_order no block that can return Err is reachable from a block that writes through `self` "
                           "(validation and `?` precede every write): a refused update changes nothing", floor=2)
